@@ -50,6 +50,24 @@ var WallLimit = 20 * time.Second
 func Exec(bin string, spec *simrt.Spec, gomaxprocs string) *Out {
 	RunsExecuted.Add(1)
 	in, _ := json.Marshal(spec)
+	if gomaxprocs == "" {
+		gomaxprocs = "1"
+	}
+	// starting a process can fail transiently on a loaded machine (EAGAIN, an expired
+	// context): that is harness trouble, retried, never a verdict about the program
+	var o *Out
+	for attempt := 0; attempt < 4; attempt++ {
+		var started bool
+		o, started = execOnce(bin, in, gomaxprocs)
+		if started {
+			break
+		}
+		time.Sleep(time.Duration(50*(attempt+1)) * time.Millisecond)
+	}
+	return o
+}
+
+func execOnce(bin string, in []byte, gomaxprocs string) (*Out, bool) {
 	ctx, cancel := context.WithTimeout(context.Background(), WallLimit)
 	defer cancel()
 	cmd := exec.CommandContext(ctx, bin)
@@ -58,17 +76,16 @@ func Exec(bin string, spec *simrt.Spec, gomaxprocs string) *Out {
 	cmd.Stdout, cmd.Stderr = &so, &se
 	pr, pw, err := os.Pipe()
 	if err != nil {
-		panic(err)
+		return &Out{TimedOut: true, Exit: -1}, false
 	}
 	cmd.ExtraFiles = []*os.File{pw}
-	if gomaxprocs == "" {
-		gomaxprocs = "1"
-	}
 	cmd.Env = []string{"GOMAXPROCS=" + gomaxprocs, "GOTRACEBACK=single", "PATH=/nonexistent"}
 	start := time.Now()
 	o := &Out{}
 	if err := cmd.Start(); err != nil {
-		panic(err)
+		pw.Close()
+		pr.Close()
+		return &Out{TimedOut: true, Exit: -1}, false
 	}
 	pw.Close()
 	resCh := make(chan []byte, 1)
@@ -95,7 +112,7 @@ func Exec(bin string, spec *simrt.Spec, gomaxprocs string) *Out {
 		o.HasRes = true
 		SimSteps.Add(int64(o.Res.Steps))
 	}
-	return o
+	return o, true
 }
 
 // Fatal classifies a death underneath the process shell (no result record).
